@@ -18,9 +18,9 @@ class Violation:
 
 def load_known(prop):
     """returns (open_keys: dict key->text, fixed: list of text)"""
-    p = os.path.join(VERIF, 'KNOWN_FINDINGS.txt')
     op = {}; fx = []
-    if os.path.exists(p):
+    for p in (os.path.join(VERIF, 'known_findings', prop + '.txt'),):
+        if not os.path.exists(p): continue
         for ln in open(p):
             ln = ln.strip()
             if not ln or ln.startswith('#'): continue
